@@ -210,7 +210,7 @@ UNIT = Unit(
         Mutant('support_not_detached', XT, r'm_stylesheetExecutionContext->setXObjectFactory\(0\);', '', expect='detaches the four'),
         Mutant('cdata_flag_kept', EN, r'\n    m_hasCDATASectionElements = false;\n', '\n', expect='ENGINE reset: every per-transformation member'),
     ],
-    mechanisms=['execution-context reset', 'processor reset', 'EnsureReset destructor guard'],
+    mechanisms=['execution-context reset', 'processor reset', 'EnsureReset destructor guard', 'state reset guard after every transformation'],
     assumptions=['clear()/reset() of each member re-establishes that member\'s constructed state: sub-object resets are verified only where they are themselves one of the five extracted reset() functions',
                  'the classification of members into transient / primed / delegate / setting / scratch is a committed table in units/c06_reset.py; the member lists are generated from the headers on every run and an unclassified member is exit 2',
                  'C++ RAII (that ~EnsureReset runs on every exit from doTransform, including exceptional ones) is language semantics, not verified; that the guard is constructed before the first use of the context is not verified',
